@@ -1,0 +1,32 @@
+//go:build verif
+
+package pqueue
+
+// Contracts checked by /verif (govc). Comment-only file; not part of normal builds.
+
+// C17: the throttle as a monitor. The invariant is assumed after every Lock of q.mu (with the
+// guarded fields set to arbitrary values: any interleaving of other goroutines that respect the
+// invariant) and must be re-established at every Unlock, on every path, for every type T.
+//   bound:    never more holders than the configured maximum
+//   parallel: the waiter list and their wake-up channels stay index-aligned
+//   no-free-slot-while-waiting: nobody waits while a slot is free (no lost slot / lost wake-up)
+//@ monitor Queue.mu self q guards active, queued, wait
+//@   prop C17
+//@   invariant bound: q.max >= 1 && len(q.active) <= q.max
+//@   invariant parallel: len(q.queued) == len(q.wait)
+//@   invariant no-free-slot-while-waiting: len(q.queued) > 0 ==> len(q.active) == q.max
+
+//@ func New(opts) (q)
+//@   prop C17
+//@   ensures establishes-invariant: q != nil && q.max >= 1 && len(q.active) == 0 && len(q.queued) == 0 && len(q.wait) == 0
+
+//@ func (*Queue[T]).Acquire(ctx, e) (done, err)
+//@   prop C17
+//@   ensures error-means-no-slot: err != nil ==> done == nil
+
+//@ func (*Queue[T]).TryAcquire(ctx, e) (done, err)
+//@   prop C17
+//@   ensures error-means-no-slot: err != nil ==> done == nil
+
+//@ func (*Queue[T]).release(prev)
+//@   prop C17
